@@ -774,7 +774,31 @@ func scenarios(nmax int, heights []int, twoLookups bool, skip map[int]bool) []ca
 	return out
 }
 
+// FirstCalls is the menu of the fresh-process call-order check: whole client histories, honest and forged.
+func FirstCalls() []fw.Call {
+	var out []fw.Call
+	for i, c := range []caseT{
+		{N: 7, H: 2, S0: -1, Cache: "cold", Lookups: []lookupT{{Rec: 1}}},
+		{N: 7, H: 1, S0: 3, Cache: "warm-half", Lookups: []lookupT{{Rec: 2, GoMod: true}, {Rec: 5, Restart: true}}},
+		{N: 5, H: 2, S0: 5, Cache: "cold", Server: "compacting", Lookups: []lookupT{{Rec: 0}}},
+		{N: 5, H: 1, S0: -1, Cache: "cold", Lookups: []lookupT{{Rec: 1}}, Plan: []planEntry{{Res: "remote:/lookup/m1.example/p1@v1.0.1-!r!c.1", Fault: opsenv.Fault{Kind: "attacker-head"}}}},
+		{N: 5, H: 1, S0: -1, Cache: "cold", Lookups: []lookupT{{Rec: 0}}, Plan: []planEntry{{Res: "remote:/lookup/m0.example/p0@v1.0.0", Fault: opsenv.Fault{Kind: "forged-text"}}}},
+	} {
+		i, c := i, c
+		out = append(out, fw.Call{Name: fmt.Sprintf("history-%d", i), F: func() string {
+			o := newCtx(c.N).exec(c)
+			var rs []string
+			for _, r := range o.results {
+				rs = append(rs, fmt.Sprintf("%q err=%v", r.Lines, r.Err))
+			}
+			return o.msg + "|" + o.class + "|" + strings.Join(rs, ";")
+		}})
+	}
+	return out
+}
+
 func Run(r *fw.Run) {
+	defer fw.FirstCallOrders(r, r.ID, FirstCalls(), nil)
 	nmax := r.Pick(7, 12)
 	heights := []int{1, 2, 3}
 	r.Bounds["log_sizes"] = fmt.Sprintf("1..%d (plus 13 records with tile height 8 in thorough)", nmax)
